@@ -1,7 +1,7 @@
 """C03 Point addition/doubling/negation implement the secp256k1 group law completely."""
 import os
 import z3
-from .common import Check, load_prog, load_globals, new_machine, tm, X, MOD, cat_bytes
+from .common import Check, load_prog, load_globals, new_machine, tm, X, MOD, cat_bytes, point_tree, point_get
 from . import fieldalg as FA, toy as T
 
 ROOT = MOD + '.'
@@ -64,11 +64,11 @@ def build(chk, only=''):
 
     # ------------------------------------------------------------------ 1. formula identities over Z, every alias partition
     def poly_point(m, name, coords, valid=True):
-        tree = [[], X.Abs('fe', coords[0]), X.Abs('fe', coords[1]), X.Abs('fe', coords[2]), valid]
+        tree = point_tree(m, name, X.Abs('fe', coords[0]), X.Abs('fe', coords[1]), X.Abs('fe', coords[2]), valid)
         return m.new_obj(None, tree=tree, label='Point:' + name)
 
     def pcoords(o):
-        return [FA.leaf_value(o.tree[i]) for i in (1, 2, 3)]
+        return [FA.leaf_value(point_get(prog, o, f)) for f in ('x', 'y', 'z')]
 
     def t_formula(fn, part):
         def task(sub):
@@ -161,18 +161,18 @@ def build(chk, only=''):
         FA.install(m, alg, {ROOT + 'feGX': g[0], ROOT + 'feGY': g[1]})   # generator mapped by role; b, 3b from the real tree
         return m, alg
 
-    def toy_point(m, alg, toy, name, k, lam, valid=True):
+    def toy_point(m, alg, toy, name, k, lam, valid=True, extra='zero'):
         """projective representative (lam*x_k, lam*y_k, lam) of k*G, or (0, lam, 0) for k = 0 (lam != 0)"""
         isid = tm.eq(k, 0, W)
         x = tm.ite(isid, 0, alg.mul(lam, toy.X(k)), W)
         y = tm.ite(isid, lam, alg.mul(lam, toy.Y(k)), W)
         z = tm.ite(isid, 0, lam, W)
-        tree = [[], X.Abs('fe', x), X.Abs('fe', y), X.Abs('fe', z), valid]
+        tree = point_tree(m, name, X.Abs('fe', x), X.Abs('fe', y), X.Abs('fe', z), valid, extra=extra)
         return m.new_obj(None, tree=tree, label='Point:' + name)
 
     def index_of(alg, toy, o):
         """(valid, k): group index of the projective point held by object o"""
-        x, y, z = [FA.leaf_value(o.tree[i]) for i in (1, 2, 3)]
+        x, y, z = [FA.leaf_value(point_get(prog, o, f)) for f in ('x', 'y', 'z')]
         zi = alg.inv(z)
         ax, ay = alg.mul(x, zi), alg.mul(y, zi)
         on, k = toy.on_curve(ax, ay)
@@ -204,7 +204,8 @@ def build(chk, only=''):
                         kx, lx = spec[src[0]] if src else spec['v']
                         if not src:
                             ctx.assume(tm.ult(kx, toy.n, W))
-                        objs[c] = (toy_point(m, alg, toy, n, kx, lx), kx)
+                        # a pure receiver: any valid point, any representation, any bookkeeping left behind by earlier uses of the object
+                        objs[c] = (toy_point(m, alg, toy, n, kx, lx, extra='zero' if src else 'any'), kx)
                     idx[n] = objs[c][1]
                 ptr = {n: X.Ptr(objs[part[n]][0], ()) for n in names}
                 if op == 'Add':
@@ -222,9 +223,18 @@ def build(chk, only=''):
                 sub.note_machine(m)
                 valid, k = index_of(alg, toy, ptr['v'].obj)
                 ctx.check(r.same(ptr['v']), 'returns-receiver')
-                ctx.check(tm.eq(ptr['v'].obj.tree[4], True, 0), 'result-flagged-valid')
+                ctx.check(tm.eq(point_get(prog, ptr['v'].obj, 'isValid'), True, 0), 'result-flagged-valid')
                 ctx.check(valid, 'bv:result-on-curve-or-identity')
                 ctx.check(tm.eq(k, want, W), 'bv:result=group-law')
+                if part['v'] not in [part[n] for n in names[1:]]:
+                    # the result as seen through a public encoder does not depend on what the receiver object was used for before
+                    cb = m.slice_elems(m.call(PT + 'CompressedBytes', [ptr['v']]))
+                    if ctx.branch(tm.eq(want, 0, W)) if isinstance(want, tm.T) else (want == 0):
+                        ctx.check(len(cb) == 1 and tm.eq(cb[0], 0, 8), 'bv:result-encodes-as-the-identity')
+                    else:
+                        yb = tm.extract(toy.Y(want), 0, 0) if isinstance(toy.Y(want), tm.T) else toy.Y(want) & 1
+                        exp = [tm.bv('add', tm.zext(yb, 8), 2, 8) if isinstance(yb, tm.T) else 2 + yb] + T.be32(toy.X(want))
+                        ctx.check(len(cb) == 33 and tm.eq(cat_bytes(cb), cat_bytes(exp), 264), 'bv:CompressedBytes(result)=encoding-of-the-group-law-result')
                 for n in names[1:]:
                     if part[n] != part['v']:
                         _, kn = index_of(alg, toy, ptr[n].obj)
